@@ -23,7 +23,7 @@ RULE = ("1-3 layers x 1-2 documents of map-rooted trees over printable strings, 
 NUMS = [0, 1, 2, -1, 7, 2147483647, 2147483648, -2147483648, -2147483649, 9007199254740993, 9223372036854775807, -9223372036854775807,
         F("0.1"), F("1e-07"), F("1e+21"), F("5e-324"), F("1.7976931348623157e+308"), F("0.5"), F("-2.25"), F("123456.789"),
         F("3"), F("2"), F("1000"), F("-1")]          # whole-valued doubles: must stay doubles, in every format
-STRS = ["s", "t", "é", "a b", "x:y", "#c", "1", "true", "~", "- x", "'q'", "\"dq\"", "tab\tx", "nl\nx", ""]
+STRS = ["s", "t", "é", "a b", "x:y", "#c", "1", "true", "~", "- x", "'q'", "\"dq\"", "tab\tx", "nl\nx", "", "end\n", "two\n\n", "a\nb\n"]
 
 
 def base_doc(rng):
@@ -80,6 +80,38 @@ def yaml_anchor_text(doc):
     text = "base: &b\n  p: 1\n  q: \"x\"\ncopy: *b\nmerged:\n  <<: *b\n  q: \"local\"\n  r: 2.5\nmulti:\n  <<: [*b, {p: 9, z: 0}]\n"
     tree = {"base": dict(shared), "copy": dict(shared), "merged": {"p": 1, "q": "local", "r": F("2.5")}, "multi": {"p": 1, "q": "x", "z": 0}}
     return text, tree
+
+
+def yaml_merge_cases(rng, n):
+    """generated YAML texts with anchors and merge keys (single and list form, explicit nulls in sources),
+    each with the tree it denotes: local keys win, earlier sources win, a null in an earlier source still wins"""
+    out = []
+    for _ in range(n):
+        def src():
+            return {k: rng.pick([1, "s", None, True, 2.5 if False else 7, "x y"]) for k in rng.shuffle(["p", "q", "r", "t"])[: 1 + rng.below(3)]}
+        a, b = src(), src()
+        local = {k: rng.pick([9, "loc", None]) for k in rng.shuffle(["q", "t", "z"])[: rng.below(3)]}
+        form = rng.pick(["single", "list", "list_rev"])
+        def flow(m):
+            return "{" + ", ".join("%s: %s" % (k, gen._json_tok(v)) for k, v in sorted(m.items())) + "}"
+        text = "a: &a %s\nb: &b %s\nsvc:\n" % (flow(a), flow(b))
+        if form == "single":
+            text += "  <<: *a\n"
+            merged = dict(a)
+        elif form == "list":
+            text += "  <<: [*a, *b]\n"
+            merged = dict(b)
+            merged.update(a)
+        else:
+            text += "  <<: [*b, *a]\n"
+            merged = dict(a)
+            merged.update(b)
+        for k, v in sorted(local.items()):
+            text += "  %s: %s\n" % (k, gen._json_tok(v))
+        merged.update(local)
+        tree = {"a": a, "b": b, "svc": merged}
+        out.append((text, gen.drop_nulls(tree)))
+    return out
 
 
 def toml_table_text():
@@ -195,7 +227,20 @@ def run(ctx):
             ctx.violations.append({"name": "alt-" + fn, "property": "C04", "kind": "failing-input",
                                    "why": "%s (anchors/merge keys resp. tables/dotted keys) does not evaluate to its expanded form: rc=%d %s %s" % (fn, rc, err[-200:], hist.short(got)),
                                    "class": "c04-format-dependence"})
-    return {"evaluations": len(jobs) * 2, "distinct_nontrivial": nt, "rule": RULE, "samples": [core.to_jsonable(c) for c in contents[:1]],
+    # generated anchors / merge keys
+    ycases = yaml_merge_cases(rng.fork("ymerge"), 40 if ctx.tier == "quick" else 600)
+    for yi, (text, tree) in enumerate(ycases):
+        fn = "ym%d.yaml" % yi
+        open(os.path.join(d, fn), "w").write(text)
+    yres = core.pmap(lambda yi: core.cli(os.path.join(ctx.bindir, "bkl"), ["-f", "json", "ym%d.yaml" % yi], d), range(len(ycases)))
+    dist["yaml_merge_cases"] = len(ycases)
+    for (text, tree), (rc, out, err) in zip(ycases, yres):
+        got = core.parse_json_docs(out.decode("utf-8", "replace")) if rc == 0 else None
+        if not (rc == 0 and veq(got, [tree])) and len(ctx.violations) < 5:
+            ctx.violations.append({"name": "ymerge-" + core.vhash(text), "property": "C04", "kind": "failing-input",
+                                   "why": "YAML with anchors/merge keys does not evaluate to its expanded form: rc=%d %s got %s want %s" % (rc, err[-150:], hist.short(got), hist.short([tree])),
+                                   "yaml": text, "class": "c04-format-dependence"})
+    return {"evaluations": len(jobs) * 2 + len(ycases), "distinct_nontrivial": nt, "rule": RULE, "samples": [core.to_jsonable(c) for c in contents[:1]],
             "distribution": dist, "disagreements_checked": len(ctx.violations)}
 
 
